@@ -79,6 +79,8 @@ pub struct Rec {
     pub largest: Option<(usize, Value)>,
     pub excluded: BTreeMap<String, u64>,
     pub inconclusive: BTreeMap<String, u64>,
+    /// set by an extra phase that could not reach a verdict: the whole run is then inconclusive
+    pub fatal_inconclusive: Option<String>,
     pub sample_cap: usize,
 }
 
@@ -95,6 +97,7 @@ impl Default for Rec {
             largest: None,
             excluded: BTreeMap::new(),
             inconclusive: BTreeMap::new(),
+            fatal_inconclusive: None,
             sample_cap: 3,
         }
     }
@@ -606,6 +609,12 @@ pub fn drive<P: Prop>(prop: &P, opts: &Options) -> i32 {
         code = 1;
     }
     write_evidence(prop, opts, &total, start, if violation.is_some() { 1 } else { 0 }, n_regress, n_enum, &enum_desc, &known);
+    if code == 0 {
+        if let Some(why) = &total.fatal_inconclusive {
+            println!("INCONCLUSIVE property={} {}", id, why);
+            code = 2;
+        }
+    }
     if code == 0 && !total.inconclusive.is_empty() {
         let n: u64 = total.inconclusive.values().sum();
         println!("note: {} case(s) inconclusive: {:?}", n, total.inconclusive);
